@@ -72,7 +72,10 @@ Section fold.
   Qed.
 
   Lemma le_antisym x y : C x -> C y -> le x y -> le y x -> x = y.
-  Proof. unfold le. intros Cx Cy Hxy Hyx. rewrite <- Hyx, <- Hxy at 2. apply comm; auto. Qed.
+  Proof.
+    unfold le. intros Cx Cy Hxy Hyx.
+    transitivity (f x y); [symmetry; exact Hyx|]. rewrite comm by auto. exact Hxy.
+  Qed.
 
   Theorem fold_set_eq x xs y ys :
     Forall C (x :: xs) -> Forall C (y :: ys) ->
